@@ -131,9 +131,21 @@ pub fn expand_precedence(input: Grammar) -> NormResult<Grammar> {
     let input = resolve::resolve(input)?;
     let mut result: Vec<GrammarItem> = Vec::with_capacity(input.items.len());
 
+    // The names the user declared: a generated level name must not be one of them.
+    let declared: Vec<NonterminalString> = input
+        .items
+        .iter()
+        .filter_map(|item| match item {
+            GrammarItem::Nonterminal(d) => Some(d.name.clone()),
+            _ => None,
+        })
+        .collect();
+
     for item in input.items.into_iter() {
         match item {
-            GrammarItem::Nonterminal(d) if has_prec_attr(&d) => result.extend(expand_nonterm(d)?),
+            GrammarItem::Nonterminal(d) if has_prec_attr(&d) => {
+                result.extend(expand_nonterm(d, &declared)?)
+            }
             item => result.push(item),
         };
     }
@@ -161,7 +173,19 @@ pub fn has_prec_attr(non_term: &NonterminalData) -> bool {
 
 /// Expand a rule with precedence attributes. As it implies to generate new rules, return a vector
 /// of grammar items.
-fn expand_nonterm(mut nonterm: NonterminalData) -> NormResult<Vec<GrammarItem>> {
+fn expand_nonterm(
+    mut nonterm: NonterminalData,
+    declared: &[NonterminalString],
+) -> NormResult<Vec<GrammarItem>> {
+    // `Name1`, `Name2`, etc., lengthened if the grammar declares that name itself.
+    let base_name = nonterm.name.clone();
+    let level_name = |lvl: u32| {
+        let mut name = format!("{base_name}{lvl}");
+        while declared.iter().any(|d| *d.0 == *name) {
+            name.push('_');
+        }
+        NonterminalString(Atom::from(name))
+    };
     let mut lvls: Vec<u32> = Vec::new();
     let mut alts_with_attr: Vec<(u32, Assoc, Alternative)> =
         Vec::with_capacity(nonterm.alternatives.len());
@@ -225,18 +249,14 @@ fn expand_nonterm(mut nonterm: NonterminalData) -> NormResult<Vec<GrammarItem>> 
             // The generated non terminal corresponding to the last level keeps the same name as the
             // initial item, so that all external references to it are still valid. Other levels get
             // the names `Name1`, `Name2`, etc. where `Name` is the name of the initial item.
-            let name = NonterminalString(Atom::from(if *lvl == lvl_max {
-                format!("{}", nonterm.name)
+            let name = if *lvl == lvl_max {
+                nonterm.name.clone()
             } else {
-                format!("{}{}", nonterm.name, lvl)
-            }));
+                level_name(*lvl)
+            };
 
-            let nonterm_prev = lvl_prec_opt.map(|lvl_prec| {
-                SymbolKind::Nonterminal(NonterminalString(Atom::from(format!(
-                    "{}{}",
-                    nonterm.name, lvl_prec
-                ))))
-            });
+            let nonterm_prev =
+                lvl_prec_opt.map(|lvl_prec| SymbolKind::Nonterminal(level_name(*lvl_prec)));
 
             let (alts_with_prec, new_rest): (Vec<_>, Vec<_>) =
                 rest.partition(|(l, _, _)| *l == *lvl);
